@@ -3,8 +3,12 @@
  *   lq_lemma():  construct the queue (contract of the constructor), then an UNBOUNDED loop "pick any public operation and call it" where every
  *   call is REPLACED by its contract (lq_spec.h) - the contracts are in turn enforced on the real bodies by the lq_* units.
  *
- * The loop invariant tracks two arbitrary tagged pushes a (earlier) and b (later) and four counters:
- *   CONSERVATION   pushes == handed-over + delivered + withdrawn + |Q| + |B|              (no item is ever lost or duplicated)
+ * The loop invariant tracks two arbitrary tagged pushes a (earlier) and b (later) and event counters:
+ *   COUNTING       every push is exactly one of handed-over / appended to Q / blocked; the counters move in lockstep with the absolute positions
+ *                  of the three sequences (LQ_COUNT_INV).  From these equalities the conservation law
+ *                        pushes == handed-over + delivered + withdrawn + |Q| + |B|          (no item is ever lost or duplicated)
+ *                  follows by linear arithmetic - checked separately by lq_conservation() with an SMT back end (64-bit sums of five terms are
+ *                  hopeless for SAT; z3 normalises them in milliseconds).
  *   ONE PLACE      a tagged item is in exactly one of { not pushed, Q at position pos, B at position pos, delivered, handed to a waiting pop,
  *                  withdrawn }; it stays inside the live range of its sequence until exactly the operation that takes that position, which
  *                  delivers exactly its value / completes or fails exactly its push future
@@ -17,7 +21,10 @@
  * are universally quantified and an item takes at most one B position and one Q position, for every history there is an aligned valuation.
  * The futures of the two tagged pushes are the distinct objects fut_a / fut_b (a pending future must stay alive, so real callers use distinct
  * objects too); all other pushes share fut_o, all pops share pop_f (their identities are not tracked).
- * limit >= 1 is assumed here (the property quantifies over limits 1..4; the per-function contracts hold for every limit). */
+ * Assumptions of the lemma: limit >= 1 (the property quantifies over limits 1..4; the per-function contracts hold for every limit); ghost
+ * positions never wrap (2^62 operations).  The SENTINELs inside the branches show that every case of every operation is reachable. */
+#define LQ_COUNT_INV (n_deliv == iq_head && n_full == bq_tail && n_parked == wq_tail && n_handed == wq_head && \
+                      iq_tail == n_room + n_moved && bq_head == n_moved + n_withdrawn && n_push == n_handed + n_room + n_full)
 #ifdef CV_HAS_lq_lemma
 #define T_NOTP 0
 #define T_INQ 1
@@ -56,21 +63,29 @@ __CPROVER_ensures(1)
   FUTV fut_a, fut_b, fut_o; FUTI pop_f; SPB sp; EXCP e; cv_i32 v;
   cv_i64 limit0 = nondet_size_t(); __CPROVER_assume(limit0 >= 1);
   struct lq_tag a = {T_NOTP, 0, 0, 0, F_NONE}, b = {T_NOTP, 0, 0, 0, F_NONE};
-  cv_i64 n_push = 0, n_handed = 0, n_deliv = 0, n_withdrawn = 0;
-  /* ---- history starts with the constructor */
+  cv_i64 n_push = 0, n_handed = 0, n_room = 0, n_full = 0, n_deliv = 0, n_moved = 0, n_withdrawn = 0, n_parked = 0;
+  /* ---- the history starts with the constructor */
   gh_q_lock_required = 0;
   lq_ctor(q, limit0);
   gh_q_mx = LQ_MX(q); gh_q_lock_required = 1;
+  __CPROVER_assert(LEMMA_ENV(q) && LQ_COUNT_INV && TAG_INV(a, &fut_a) && TAG_INV(b, &fut_b) && ORD_INV(a, b), "LEMMA base: the constructor establishes the invariant of the history loop");
+  /* continue from an ARBITRARY state satisfying the invariant (what the loop contract does anyway; done explicitly so that the first,
+   * peeled iteration of the instrumented loop also sees every case - all branch SENTINELs must be reachable in every copy) */
+  { struct cv_iq_state hq; struct cv_wq_state hw; struct cv_bq_state hb; struct lq_tag ha, hb2; gh_iq = hq; gh_wq = hw; gh_bq = hb; a = ha; b = hb2;
+    n_push = nondet_size_t(); n_handed = nondet_size_t(); n_room = nondet_size_t(); n_full = nondet_size_t(); n_deliv = nondet_size_t(); n_moved = nondet_size_t();
+    n_withdrawn = nondet_size_t(); n_parked = nondet_size_t();
+    __CPROVER_assume(LEMMA_ENV(q) && LQ_COUNT_INV && TAG_INV(a, &fut_a) && TAG_INV(b, &fut_b) && ORD_INV(a, b)); }
 
   while (nondet_bool())
-  __CPROVER_assigns(LQ_MODEL, gh_ep_addref, gh_ep_release, a, b, n_push, n_handed, n_deliv, n_withdrawn, fut_a, fut_b, fut_o, pop_f, sp, e, v)
+  __CPROVER_assigns(LQ_MODEL, gh_ep_addref, gh_ep_release, a, b, n_push, n_handed, n_room, n_full, n_deliv, n_moved, n_withdrawn, n_parked, fut_a, fut_b, fut_o, pop_f, sp, e, v)
   __CPROVER_loop_invariant(LEMMA_ENV(q))
-  __CPROVER_loop_invariant(n_push == n_handed + n_deliv + n_withdrawn + IQ_LEN + BQ_LEN)                 /* conservation */
+  __CPROVER_loop_invariant(LQ_COUNT_INV)
   __CPROVER_loop_invariant(TAG_INV(a, &fut_a) && TAG_INV(b, &fut_b) && ORD_INV(a, b))
   {
     /* per-call ghost logs start clean (they describe one call) */
     gh_pr.n = 0; gh_pr.lost = 0; gh_pr.fresh = 0; gh_pr.fresh_n = 0; gh_pr.sp_flush = 0; gh_pr.sp_flush_locked = 0;
     wq_slot_pos = QM_NOPOS; wq_dtor_n = 0; wq_trk_drops = 0; bq_slot_pos = QM_NOPOS; bq_dtor_n = 0; bq_trk_drops = 0;
+    QM_NOWRAP(iq_tail); QM_NOWRAP(bq_tail); QM_NOWRAP(wq_tail);        /* ghost positions are mathematical integers: they never wrap (as in the container model) */
     cv_i64 h0 = iq_head, t0 = iq_tail, bh0 = bq_head, bt0 = bq_tail, wh0 = wq_head, wt0 = wq_tail;
     unsigned op = nondet_unsigned();
     if (op == 0) {                                                      /* ---------------- push(v) */
@@ -86,14 +101,19 @@ __CPROVER_ensures(1)
         __CPROVER_assert(gh_pr.n == 1 && gh_pr.kind[0] == PR_VALUE && gh_pr.val[0] == v0, "LEMMA push/handed: exactly one waiting pop receives exactly the pushed value");
         __CPROVER_assert(FUTV_IS_READY(r), "LEMMA push/handed: the push completes immediately");
         t.loc = T_HANDED; t.fut = F_READY;
+        __CPROVER_assert(0, "SENTINEL reachable: push handed to a waiting pop");
       } else if (t0 - h0 < limit0) {                                    /* room: appended to Q                                 */
+        n_room++;
         __CPROVER_assert(FUTV_IS_READY(r), "LEMMA push/room: a push completes immediately while fewer than limit items are waiting");
         __CPROVER_assert(bq_tail == bt0 && iq_tail == t0 + 1, "LEMMA push/room: the item is in Q and nobody became blocked");
         t.loc = T_INQ; t.pos = t0; t.al = (gh_IK == t0); t.fut = F_READY;
+        __CPROVER_assert(0, "SENTINEL reachable: push appended to Q");
       } else {                                                          /* full: parked in B, holding its item                 */
+        n_full++;
         __CPROVER_assert(FUT_PENDING(r) && gh_pr.n == 0, "LEMMA push/full: the push stays pending");
         __CPROVER_assert(iq_tail == t0 && bq_tail == bt0 + 1, "LEMMA push/full: the item is only in B");
         t.loc = T_INB; t.pos = bt0; t.al = (gh_BK == bt0); t.fut = F_PENDING;
+        __CPROVER_assert(0, "SENTINEL reachable: push blocked");
       }
       if (tag_a) a = t;
       if (tag_b) { b = t;
@@ -103,45 +123,67 @@ __CPROVER_ensures(1)
       if (h0 < t0) {                                                    /* position h0 of Q is delivered to this pop           */
         n_deliv++;
         __CPROVER_assert(gh_pr.id[0] == &pop_f && gh_pr.kind[0] == PR_VALUE, "LEMMA pop: this pop is completed with a value");
-        if (a.loc == T_INQ && a.pos == h0) { __CPROVER_assert(!a.al || gh_pr.val[0] == a.v, "LEMMA pop: the pop that takes the tagged item's position receives exactly its value (a)"); a.loc = T_DELIV; }
+        if (a.loc == T_INQ && a.pos == h0) { __CPROVER_assert(!a.al || gh_pr.val[0] == a.v, "LEMMA pop: the pop that takes the tagged item's position receives exactly its value (a)"); a.loc = T_DELIV;
+          __CPROVER_assert(0, "SENTINEL reachable: tagged item a delivered"); }
         if (b.loc == T_INQ && b.pos == h0) { __CPROVER_assert(!b.al || gh_pr.val[0] == b.v, "LEMMA pop: the pop that takes the tagged item's position receives exactly its value (b)");
-          __CPROVER_assert(T_DONE(a), "LEMMA order: b is delivered only after a was delivered (or withdrawn)"); b.loc = T_DELIV; }
-        if (bh0 < bt0) {                                                /* the oldest blocked push moves into Q and completes  */
+          __CPROVER_assert(T_DONE(a), "LEMMA order: b is delivered only after a was delivered (or withdrawn)"); b.loc = T_DELIV;
+          __CPROVER_assert(0, "SENTINEL reachable: tagged item b delivered"); }
+        if (bh0 < bt0) { n_moved++;                                     /* the oldest blocked push moves into Q and completes  */
           __CPROVER_assert(gh_pr.n == 2 && gh_pr.kind[1] == PR_VALUE && gh_pr.locked[1] == 0, "LEMMA pop: exactly one blocked push completes per pop, outside the lock");
           if (a.loc == T_INB && a.pos == bh0) { __CPROVER_assert(!a.al || gh_pr.id[1] == (void *)&fut_a, "LEMMA pop: the completed push is the tagged one (a)");
-            a.loc = T_INQ; a.pos = t0; a.al = a.al && (gh_IK == t0); a.fut = F_COMPLETED; }
+            a.loc = T_INQ; a.pos = t0; a.al = a.al && (gh_IK == t0); a.fut = F_COMPLETED;
+            __CPROVER_assert(0, "SENTINEL reachable: blocked push a completed by a pop"); }
           if (b.loc == T_INB && b.pos == bh0) { __CPROVER_assert(!b.al || gh_pr.id[1] == (void *)&fut_b, "LEMMA pop: the completed push is the tagged one (b)");
             __CPROVER_assert(a.loc != T_INB, "LEMMA order: blocked pushes complete in arrival order");
-            b.loc = T_INQ; b.pos = t0; b.al = b.al && (gh_IK == t0); b.fut = F_COMPLETED; }
+            b.loc = T_INQ; b.pos = t0; b.al = b.al && (gh_IK == t0); b.fut = F_COMPLETED;
+            __CPROVER_assert(0, "SENTINEL reachable: blocked push b completed by a pop"); }
         } else {
           __CPROVER_assert(gh_pr.n == 1, "LEMMA pop: nobody else is completed");
         }
       } else {
+        n_parked++;
         __CPROVER_assert(gh_pr.n == 0 && FUT_PENDING(&pop_f) && wq_tail == wt0 + 1, "LEMMA pop/empty: the pop waits");
+        __CPROVER_assert(0, "SENTINEL reachable: pop parked");
       }
     } else if (op == 2) {                                               /* ---------------- unblock_push(e) */
-      e._M_exception_object = (cv_i8 *)nondet_ptr(); cv_i8 *e0 = e._M_exception_object;
+      cv_i8 *e0 = (cv_i8 *)nondet_size_t(); e._M_exception_object = e0;
       lq_unblock_push(&sp, q, &e);
       if (bh0 < bt0) {
         n_withdrawn++;
         __CPROVER_assert(gh_pr.n == 1 && gh_pr.kind[0] == PR_EXC && gh_pr.exc[0] == (void *)e0, "LEMMA unblock_push: exactly one push fails, with exactly e");
         __CPROVER_assert(iq_head == h0 && iq_tail == t0, "LEMMA unblock_push: the item is withdrawn (not queued, not delivered)");
-        if (a.loc == T_INB && a.pos == bh0) { __CPROVER_assert(!a.al || gh_pr.id[0] == (void *)&fut_a, "LEMMA unblock_push: the failed push is the oldest blocked one (a)"); a.loc = T_WITHDRAWN; a.fut = F_FAILED; }
+        if (a.loc == T_INB && a.pos == bh0) { __CPROVER_assert(!a.al || gh_pr.id[0] == (void *)&fut_a, "LEMMA unblock_push: the failed push is the oldest blocked one (a)"); a.loc = T_WITHDRAWN; a.fut = F_FAILED;
+          __CPROVER_assert(0, "SENTINEL reachable: blocked push a withdrawn"); }
         if (b.loc == T_INB && b.pos == bh0) { __CPROVER_assert(!b.al || gh_pr.id[0] == (void *)&fut_b, "LEMMA unblock_push: the failed push is the oldest blocked one (b)");
-          __CPROVER_assert(a.loc != T_INB, "LEMMA order: unblock_push fails the OLDEST blocked push"); b.loc = T_WITHDRAWN; b.fut = F_FAILED; }
+          __CPROVER_assert(a.loc != T_INB, "LEMMA order: unblock_push fails the OLDEST blocked push"); b.loc = T_WITHDRAWN; b.fut = F_FAILED;
+          __CPROVER_assert(0, "SENTINEL reachable: blocked push b withdrawn"); }
       } else {
         __CPROVER_assert(gh_pr.n == 0 && sp.value == 0, "LEMMA unblock_push: nothing happens when nobody is blocked");
       }
     } else if (op == 3) {                                               /* ---------------- size() */
       cv_i64 s = lq_size(&q->base_queue);
-      __CPROVER_assert(s == IQ_LEN && s == n_push - n_handed - n_deliv - n_withdrawn - BQ_LEN, "LEMMA size: the number of waiting items (blocked items are not counted)");
+      __CPROVER_assert(s == IQ_LEN, "LEMMA size: the number of waiting items (blocked items are not counted)");
     } else {                                                            /* ---------------- empty() */
       cv_i1 em = lq_empty(&q->base_queue);
       __CPROVER_assert((em != 0) == (IQ_LEN == 0), "LEMMA empty");
     }
   }
-  __CPROVER_assert(n_push == n_handed + n_deliv + n_withdrawn + IQ_LEN + BQ_LEN, "LEMMA conservation: every pushed item is delivered, withdrawn or still held exactly once");
   __CPROVER_assert(0, "SENTINEL reachable: after the history loop");
 }
 void h_lq_lemma(void) { lq_lemma(); __CPROVER_assert(0, "SENTINEL reachable"); }
+#endif
+
+/* ---- conservation as a consequence of the counting invariant: pure linear arithmetic over the counters, checked with an SMT back end.
+ * (The counting invariant LQ_COUNT_INV is the loop invariant of lq_lemma above - same macro.) */
+#ifdef CV_LQ_CONSERVATION
+void h_lq_conservation(void) {
+  cv_i64 n_push = nondet_size_t(), n_handed = nondet_size_t(), n_room = nondet_size_t(), n_full = nondet_size_t(), n_deliv = nondet_size_t(),
+         n_moved = nondet_size_t(), n_withdrawn = nondet_size_t(), n_parked = nondet_size_t();
+  iq_head = nondet_size_t(); iq_tail = nondet_size_t(); bq_head = nondet_size_t(); bq_tail = nondet_size_t(); wq_head = nondet_size_t(); wq_tail = nondet_size_t();
+  if (LQ_COUNT_INV) {
+    __CPROVER_assert(n_push == n_handed + n_deliv + n_withdrawn + IQ_LEN + BQ_LEN, "LEMMA conservation: every pushed item was handed over, delivered or withdrawn exactly once, or is still held exactly once (in Q or by a blocked push)");
+    __CPROVER_assert(BQ_LEN == n_full - n_moved - n_withdrawn, "LEMMA blocked producers: each blocked push is still blocked, was completed by exactly one pop or was withdrawn");
+    __CPROVER_assert(0, "SENTINEL reachable");
+  }
+}
 #endif
